@@ -107,6 +107,21 @@ pub fn gen(ctx: &mut Ctx) {
             }
         }
     }
+    // ---- inputs of every length are inputs: empty first / second input (hashed path), at registration and authentication
+    for hm in [Hm::NoUvMc, Hm::NoUv] {
+        for (first, second) in [(vec![], None), (vec![1u8, 2, 3], Some(vec![])), (vec![], Some(vec![])), (vec![], Some(vec![9u8; 40]))] {
+            let w = World { kind: Kind::RefFull, counter_on: false, id_len: 16, hm, preload: vec![] };
+            let vals = CPrfV { first: first.clone(), second: second.clone() };
+            let mut r = simple_reg(ctx, url, Some(rp));
+            r.ext = Some(CExt { cred_props: None, prf: Some(CPrfI { eval: Some(vals.clone()), by_cred: None }), prf_hashed: None });
+            let mut a = simple_auth(ctx, url, Some(rp)); a.allow_last = true;
+            a.ext = Some(CExt { cred_props: None, prf: Some(CPrfI { eval: Some(vals.clone()), by_cred: None }), prf_hashed: None });
+            let mut a2 = simple_auth(ctx, url, Some(rp)); a2.allow_refs = vec![0];
+            a2.ext = Some(CExt { cred_props: None, prf: Some(CPrfI { eval: None, by_cred: Some(vec![("@0".into(), vals)]) }), prf_hashed: None });
+            run_ccase(ctx, "C09", &w, &[cstep(COp::Reg(r)), cstep(COp::Auth(a)), cstep(COp::Auth(a2))]);
+            ctx.stat("c09.client_corpus.empty_inputs");
+        }
+    }
     for i in 0..n {
         let hm = HMS[i % 5];
         let kind = [Kind::RefFull, Kind::RefForced, Kind::Map][i % 3];
